@@ -1,4 +1,165 @@
-(* C20 — property theorems (work in progress) *)
-From Coq Require Import List NArith Bool.
+(* C20 — property theorems.  This file contains only statements, each closed by [exact] of a lemma
+   from Proofs.v, and non-vacuity examples.  The vocabulary (pk/pa/ch, jobof, live, E, closed, Inv, wf,
+   wf_shape, target, pdep, jdep, needed, reachable, consistent_deps, in_exactly_one_job) is defined at the
+   end of Model.v; name_collision/no_collision and the witness graphs are in Proofs.v.
+
+   [wf g] = the extracted step graph has the shape the Step API guarantees ([wf_shape]) AND the interned
+   variant ids of the package dependencies of every instance are smaller than the id of the depending
+   package, i.e. the variant graph over ALL package instances is acyclic. *)
+From Coq Require Import List NArith Bool Relations.
 Require Import BobV.C20.Model BobV.C20.Proofs.
 Import ListNotations.
+
+(* P1. "childs is closed under job-level reachability" holds after the spanning phase of every
+   well-formed step graph, is preserved (together with the rest of the invariant) by every single
+   merge the greedy loop performs, holds at the end of sanitize(), and it is the reason why the test
+   [i.childs >= j.pkgs | j.childs] means "i reaches j". *)
+Theorem childs_closed_invariant :
+  (forall g roots st, wf g = true -> span g roots = Ok st -> closed st) /\
+  (forall st i j st', Inv st -> live st i -> live st j -> i <> j ->
+     reaches st i j = false -> reaches st j i = false -> merge_two st i j = Ok st' -> Inv st') /\
+  (forall g roots nm, wf g = true -> sanitize g roots = Ok nm -> closed (nm_state nm)) /\
+  (forall st I J, Inv st -> clos_trans_1n nat (E st) I J -> reaches st I J = true).
+Proof. exact childs_closed_invariant_proof. Qed.
+
+(* P1. The graph of abstract jobs, as recorded in the parents sets, is acyclic after all merges
+   (contracting two mutually unreachable vertices of a DAG keeps it a DAG). *)
+Theorem merge_preserves_acyclic : forall g roots nm,
+  wf g = true -> sanitize g roots = Ok nm -> forall J, ~ clos_trans_1n nat (E (nm_state nm)) J J.
+Proof. exact merge_preserves_acyclic_proof. Qed.
+
+(* P1. ... and the recorded graph contains every real dependency: the job graph induced by the direct
+   package dependencies (arguments, tools, sandbox of the package, build and checkout step) of the
+   reference instances is acyclic.
+   Full statement (FALSE of the code, finding F13, see job_graph_acyclic_refuted): the same with
+   [wf_shape g] instead of [wf g].  Missing: nothing in the proof; the hypothesis "the variant graph
+   over all instances is acyclic" is necessary. *)
+Theorem job_graph_acyclic_partial : forall g roots nm,
+  wf g = true -> sanitize g roots = Ok nm -> forall J, ~ clos_trans_1n nat (jdep g (nm_state nm)) J J.
+Proof. exact job_graph_acyclic_partial_proof. Qed.
+
+Theorem job_graph_acyclic_refuted :
+  exists g roots sroots abs names jobs,
+    wf_shape g = true /\ wf_roots g roots = true /\
+    run [] false g roots sroots = Jobs abs names jobs true /\ no_collision names = true /\
+    length abs = length names.
+Proof. exact job_graph_acyclic_refuted_proof. Qed.
+
+(* P1. Every variant that has to be built (the roots and, transitively, the dependencies of the
+   reference instances) is in the package set of exactly one abstract job ... *)
+Theorem every_needed_variant_in_exactly_one_job : forall g roots nm,
+  wf g = true -> wf_roots g roots = true -> sanitize g roots = Ok nm ->
+  forall k, needed g (nm_state nm) roots k -> in_exactly_one_job (nm_state nm) k.
+Proof. exact every_needed_variant_in_exactly_one_job_proof. Qed.
+
+(* ... and when all instances of a variant have the same dependency variants this is every package
+   reachable from the roots. *)
+Theorem every_reachable_pkg_in_exactly_one_job : forall g roots nm,
+  wf g = true -> wf_roots g roots = true -> consistent_deps g -> sanitize g roots = Ok nm ->
+  forall Q sQ, reachable g roots Q -> nth_error g Q = Some sQ -> in_exactly_one_job (nm_state nm) (s_vid sQ).
+Proof. exact every_reachable_pkg_in_exactly_one_job_proof. Qed.
+
+(* P1 (partial). The abstract job J of a package depends on the job K of every direct dependency of its
+   reference instance: K is another job, it records the package as parent, and J's childs contain
+   everything K builds or reaches.
+   Full statement: additionally K's internal name is in JenkinsJob.getUpstreamJobs() of the Jenkins job
+   that builds J.  The Jenkins-level half is jenkins_job_upstream_complete below; missing is the link
+   between the two (that the instance stored in the JenkinsJob is the reference instance and that the
+   internal name identifies the abstract job — the latter is false, F4). *)
+Theorem job_depends_on_jobs_of_deps_partial : forall g roots nm,
+  wf g = true -> sanitize g roots = Ok nm ->
+  forall k J P Q sQ, jobof (nm_state nm) k = Some J -> lookupN k (st_ref (nm_state nm)) = Some P ->
+  pdep g P Q -> nth_error g Q = Some sQ ->
+  exists K, jobof (nm_state nm) (s_vid sQ) = Some K /\ K <> J /\ In k (pa (nm_state nm) K) /\
+            sub (pk (nm_state nm) K) (ch (nm_state nm) J) /\ sub (ch (nm_state nm) K) (ch (nm_state nm) J).
+Proof. exact job_depends_on_jobs_of_deps_proof. Qed.
+
+(* P1 (Jenkins level). For every JenkinsJob produced by genJenkinsJobs (any prefix, shortdescription
+   setting, root list): every variant the job builds has an instance all of whose valid dependencies
+   (arguments, tools, sandbox) are either built by the same job or are recorded dependencies whose job
+   name is in getUpstreamJobs(); a recorded dependency is never built by the job itself.
+   Not covered (exercised by the correspondence and the oracle): that _genJenkinsJobs reaches every needed
+   package (seenPackages/allVariantIds early rejects) and that the job name calculated from the display
+   name identifies the abstract job (false, F4). *)
+Theorem jenkins_job_upstream_complete : forall prefix short g nm roots jobs n jj ups,
+  gen_roots prefix short g nm roots [] = Ok jobs -> lookup_str n jobs = Some jj ->
+  upstream prefix g nm jj = Ok ups ->
+  forall v, In v (j_steps jj) -> exists sid s, nth_error g sid = Some s /\ s_vid s = v /\
+    forall d sd, In d (alldeps s) -> nth_error g d = Some sd -> s_valid sd = true ->
+      In (s_vid sd) (j_steps jj) \/
+      (~ In (s_vid sd) (j_steps jj) /\
+       exists d' sd' m, nth_error g d' = Some sd' /\ s_vid sd' = s_vid sd /\ s_valid sd' = true /\
+                        internal_name prefix g nm sd' = Ok m /\ In m ups).
+Proof. exact jenkins_job_upstream_complete_proof. Qed.
+
+(* P1 names_unique. Full statement (FALSE of the code, finding F4):
+     forall g roots nm, wf g = true -> sanitize g roots = Ok nm -> ~ name_collision nm
+   i.e. distinct abstract jobs get distinct internal Jenkins job names. *)
+Theorem names_unique_refuted :
+  exists g roots nm, wf g = true /\ wf_roots g roots = true /\ sanitize g roots = Ok nm /\ name_collision nm.
+Proof. exact names_unique_refuted_proof. Qed.
+
+(* What does hold: the name is a total function of the job (every spanned package gets a name, all
+   packages of one abstract job get the same name).  Missing for the full statement: injectivity, which
+   fails for names that differ only in case or in characters replaced by '_', and for numbering
+   suffixes that collide with existing names. *)
+Theorem names_unique_partial : forall g roots nm,
+  wf g = true -> sanitize g roots = Ok nm ->
+  (forall v j, jobof (nm_state nm) v = Some j -> exists n, lookupN v (nm_names nm) = Some n) /\
+  (forall v1 v2 j, jobof (nm_state nm) v1 = Some j -> jobof (nm_state nm) v2 = Some j ->
+                   lookupN v1 (nm_names nm) = lookupN v2 (nm_names nm)).
+Proof. exact names_unique_partial_proof. Qed.
+
+(* ---- non-vacuity: concrete instances, evaluated *)
+
+(* a well-formed graph on which jobs are merged ({q-a,q-b} and {q-b,q-c}) and numbered (q-1, q-2) *)
+Example sanitize_nonvacuous :
+  wf witness_merge_graph = true /\ wf_roots witness_merge_graph witness_merge_roots = true /\
+  exists nm, sanitize witness_merge_graph witness_merge_roots = Ok nm /\
+    (exists J, jobof (nm_state nm) 8%N = Some J /\ jobof (nm_state nm) 10%N = Some J) /\
+    lookupN 8%N (nm_names nm) = Some [113; 45; 49]%N /\ lookupN 2%N (nm_names nm) = Some [113; 45; 50]%N.
+Proof.
+  split; [vm_compute; reflexivity|]. split; [vm_compute; reflexivity|].
+  destruct (sanitize witness_merge_graph witness_merge_roots) as [nm| |] eqn:E; [|vm_compute in E; discriminate..].
+  exists nm. split; [reflexivity|]. vm_compute in E. inversion E; subst nm; clear E.
+  split; [eexists; split; vm_compute; reflexivity|]. split; vm_compute; reflexivity.
+Qed.
+
+(* the job graph is not empty: on the F4 witness the job of root depends on the job of lib *)
+Example jdep_nonvacuous :
+  exists nm J K, sanitize witness_f4_graph witness_f4_roots = Ok nm /\ jdep witness_f4_graph (nm_state nm) J K.
+Proof.
+  destruct (sanitize witness_f4_graph witness_f4_roots) as [nm| |] eqn:E; [|vm_compute in E; discriminate..].
+  exists nm. vm_compute in E. inversion E; subst nm; clear E.
+  eexists. eexists. split; [reflexivity|].
+  exists 8%N, 11, 9. eexists. split; [vm_compute; reflexivity|]. split; [vm_compute; reflexivity|].
+  split; [|split; vm_compute; reflexivity].
+  eexists. exists 10. split; [vm_compute; reflexivity|]. split; [reflexivity|]. split; [vm_compute; auto|].
+  eapply tg_via; [vm_compute; reflexivity|reflexivity|vm_compute; auto|].
+  eapply tg_pkg; [vm_compute; reflexivity|reflexivity].
+Qed.
+
+(* the test of the merge loop says "reaches" where there is a path, and the merged jobs were unreachable *)
+Example reaches_nonvacuous :
+  exists nm Jroot Jt, sanitize witness_merge_graph witness_merge_roots = Ok nm /\
+    jobof (nm_state nm) 14%N = Some Jroot /\ jobof (nm_state nm) 6%N = Some Jt /\
+    reaches (nm_state nm) Jroot Jt = true /\ reaches (nm_state nm) Jt Jroot = false.
+Proof.
+  destruct (sanitize witness_merge_graph witness_merge_roots) as [nm| |] eqn:E; [|vm_compute in E; discriminate..].
+  exists nm. vm_compute in E. inversion E; subst nm; clear E.
+  eexists. eexists. split; [reflexivity|]. split; [vm_compute; reflexivity|]. split; [vm_compute; reflexivity|].
+  split; vm_compute; reflexivity.
+Qed.
+
+(* the Jenkins level: on the merge witness the job of root has the jobs of its dependencies upstream *)
+Example upstream_nonvacuous :
+  exists nm jobs jj ups, sanitize witness_merge_graph witness_merge_roots = Ok nm /\
+    gen_roots [] false witness_merge_graph nm witness_merge_roots [] = Ok jobs /\
+    lookup_str [114; 111; 111; 116]%N jobs = Some jj /\ upstream [] witness_merge_graph nm jj = Ok ups /\
+    length (j_steps jj) = 2 /\ length ups = 1.
+Proof.
+  destruct (sanitize witness_merge_graph witness_merge_roots) as [nm| |] eqn:E; [|vm_compute in E; discriminate..].
+  exists nm. vm_compute in E. inversion E; subst nm; clear E.
+  eexists. eexists. eexists. split; [reflexivity|]. split; [vm_compute; reflexivity|].
+  split; [vm_compute; reflexivity|]. split; [vm_compute; reflexivity|]. split; vm_compute; reflexivity.
+Qed.
